@@ -149,6 +149,8 @@ def py_case(H, kind, s):
         v = got[1]
         if not valid:
             probs.append('a line would receive %r for text the validator rejects' % (v,))
+        if kind == 'ISSN' and not re.fullmatch(r'[0-9]{9}', v if isinstance(v, str) else ''):
+            probs.append('a social security number that is not nine ASCII digits reaches the lines: %r' % (v,))
         T = {'IBoolean': bool, 'IInteger': int, 'IFloat': float, 'IString': str, 'ISSN': str, 'IRegexA': str, 'IRegexR': str}.get(kind)
         if T is not None and type(v) is not T:
             probs.append('value %r does not have the declared type' % (v,))
@@ -286,5 +288,26 @@ def run(tier, seed):
             ck.violation('C11:%s:file-path-raises' % k, '%s %r supplied in the file raises %s when read' % (k, s, type(e).__name__),
                          {'kind': 'failing-input', 'input_class': k, 'string': s, 'via': 'file', 'exception': repr(e)}, found=True)
     ck.cov['file_path_cases'] = n_file
+    # the solver's side of the gate: a supplied value that its validator rejects makes the solve stop with InvalidInput naming the input -
+    # it is neither treated as missing (and asked for again) nor handed to a line
+    from . import scenarios as _sc
+    Hs = _sc.habutax_modules()
+    bad_values = [('w-2:0.box_1', '12,595.47'), ('w-2:0.box_2', 'nan'), ('w-2:0.box_13_retirement', 'maybe'), ('w-2:0.box_12a_code', 'not-a-code')]
+    n_solver = 0
+    for y_ in common.YEARS:
+        for (name, text) in bad_values:
+            prof = {'status': 'Single', 'amounts': 'cents', 'wages': 50000, 'n_w2': 1, 'others': False, 'zero_frac': 0.8, 'benign_true': 0.5, 'n_dep': 0}
+            asked = []
+            r = _sc.run_scenario(Hs, y_, ['w-2:0'], 5, prof, initial={name: text}, on_prompt=lambda m, nb, st, rr: asked.append(m.name()))
+            n_solver += 1
+            ck.count(('solver-gate', y_, name, text), nontrivial=True)
+            if not isinstance(r['exc'], Hs['inputs'].InvalidInput):
+                ck.violation('C11:solver:invalid-supplied-value-not-refused',
+                             'ty%d: %s = %r is supplied in the input file and rejected by its validator, yet the solve ends with %s%s instead of InvalidInput' % (
+                                 y_, name, text, ('%s' % type(r['exc']).__name__) if r['exc'] is not None else 'a verdict (solved=%s)' % r['ok'],
+                                 ' after prompting for it' if name in asked else ''),
+                             {'kind': 'failing-input', 'year': y_, 'forms': ['w-2:0'], 'input_file': {name: text}, 'prompted_for': asked[:5]}, found=True)
+                break
+    ck.cov['solver_gate_cases'] = n_solver
     ck.sample({'class': cases[40][0], 'string': cases[40][1], 'python': py_case(H, cases[40][0], cases[40][1])[0][:12]})
     return sf.finish_family(ck, 'C11')
